@@ -67,6 +67,16 @@ func (cw *caseWriter) close() {
 
 var streams = map[string]func(g *gen, cw *caseWriter, n int, thorough bool){}
 
+// about records the operation that is about to run: if the process dies on it (fatal error: stack overflow, concurrent
+// map writes, out of memory — nothing `recover` can catch), the check finds the input here
+var aboutPath string
+
+func about(op string) {
+	if aboutPath != "" {
+		_ = os.WriteFile(aboutPath, []byte(oneLine(op)), 0o644)
+	}
+}
+
 func main() {
 	stream := flag.String("stream", "", "case stream")
 	seed := flag.Int64("seed", 1, "PRNG seed")
@@ -91,7 +101,9 @@ func main() {
 		os.Exit(2)
 	}
 	cw := newCaseWriter(*out)
+	aboutPath = filepath.Join(*out, "current.txt")
 	f(newGen(*seed), cw, *n, *thorough)
+	os.Remove(aboutPath)
 	cw.close()
 	fmt.Printf("cases=%d\n", cw.n)
 }
